@@ -37,6 +37,8 @@ struct St {
     got_headers: bool,
     counted: bool,
     resp_headers_sent: bool,
+    /// server role: the response was started before the end of the request; its last byte waits for that end
+    early: bool,
 }
 
 pub struct H2Peer {
@@ -72,6 +74,12 @@ pub struct H2Peer {
     pending_open: Vec<usize>,
     cluster: String,
     w0: u32,
+    /// full-duplex schedule: stop reading the socket for a while once enough DATA arrived (kit::Hold)
+    pub hold: Option<Hold>,
+    hold_until: Option<Instant>,
+    hold_done: bool,
+    data_in: u64,
+    pub holds: u64,
 }
 
 impl H2Peer {
@@ -91,6 +99,10 @@ impl H2Peer {
         p.plan = Some(plan.clone());
         p.cluster = cluster.to_string();
         p.w0 = w0;
+        p.hold = plan.client_hold.clone();
+        if plan.ping_every > 0 {
+            p.ping_every = plan.ping_every;
+        }
         for i in 0..plan.streams.len() {
             if i < wave1 { p.open_stream(i) } else { p.pending_open.push(i) }
         }
@@ -126,7 +138,7 @@ impl H2Peer {
                                     pace: Pace::new(sp.req.wpause_every, sp.req.wpause_us), done: end_now, aborted: false, armed: true }),
                 recv: Some(RecvRec::new(MsgKey { run: plan.run, stream: sp.idx, dir: 1 }, plan.seed, p.sh.log.clone(), "Client")),
                 rplan: sp.client_read.clone(),
-                send_window: p.peer_initial_window, pending_grant: 0, grant_at: None, got_headers: false, counted: false, resp_headers_sent: false,
+                send_window: p.peer_initial_window, pending_grant: 0, grant_at: None, got_headers: false, counted: false, resp_headers_sent: false, early: false,
             };
             p.by_sid.insert(sid, p.streams.len());
             p.streams.push(st);
@@ -151,7 +163,8 @@ impl H2Peer {
         H2Peer { sh, server, fb: FrameBuf::default(), hp: Hpack::default(), ctl: VecDeque::new(), streams: Vec::new(), by_sid: HashMap::new(),
                  conn_send_window: 65535, peer_initial_window: 65535, peer_max_frame: 16384, my_initial_window: w0, my_conn_window: conn_window.max(65535),
                  conn_consumed: 0, need_preface: false, rr: 0, dead: false, closing: CloseAction::None, goaway: None, protocol_errors: Vec::new(), plan: None,
-                 hdr_acc: None, foreign_answers: Vec::new(), frames_in: 0, peer_settings_seen: false, ping_every: 0, ping_acc: 0, pings_sent: 0, ping_acks: 0, pending_open: Vec::new(), cluster: String::new(), w0: 65535 }
+                 hdr_acc: None, foreign_answers: Vec::new(), frames_in: 0, peer_settings_seen: false, ping_every: 0, ping_acc: 0, pings_sent: 0, ping_acks: 0, pending_open: Vec::new(), cluster: String::new(), w0: 65535,
+                 hold: None, hold_until: None, hold_done: false, data_in: 0, holds: 0 }
     }
 
     fn release(&mut self, i: usize) {
@@ -194,11 +207,18 @@ impl H2Peer {
                         idx: s, sid, run: r,
                         send: Some(SendSt { plan: sp.resp.clone(), rec: SendRec::new(MsgKey { run: r, stream: s, dir: 1 }, self.sh.log.clone(), "Backend"),
                                             code: Code::new(p.seed, s, 1), off: 0, rng: Rng(mix(p.seed ^ sid as u64 ^ 0x77)),
-                                            pace: Pace::new(sp.resp.wpause_every, sp.resp.wpause_us), done: false, aborted: false, armed: false }),
+                                            pace: Pace::new(sp.resp.wpause_every, sp.resp.wpause_us), done: false, aborted: false, armed: sp.early_resp && !end_stream }),
                         recv: Some(RecvRec::new(MsgKey { run: r, stream: s, dir: 0 }, p.seed, self.sh.log.clone(), "Backend")),
                         rplan: sp.backend_read.clone(),
                         send_window: self.peer_initial_window, pending_grant: 0, grant_at: None, got_headers: true, counted: true, resp_headers_sent: false,
+                        early: sp.early_resp && !end_stream,
                     };
+                    if self.hold.is_none() && !self.hold_done {
+                        self.hold = p.backend_hold.clone();
+                    }
+                    if p.ping_every > 0 {
+                        self.ping_every = p.ping_every;
+                    }
                     // the stream's own receive window may differ from the connection-wide initial value
                     if sp.backend_read.h2_window > self.my_initial_window {
                         self.ctl.push_back(Seg::meta(Frame::window_update(sid, sp.backend_read.h2_window - self.my_initial_window).encode()));
@@ -358,6 +378,16 @@ impl H2Peer {
                 let wire = f.payload.len() as u64;
                 self.conn_consumed += wire;
                 self.note_bytes(wire);
+                self.data_in += wire;
+                if !self.hold_done {
+                    if let Some(h) = self.hold.as_ref() {
+                        if self.data_in >= h.after_bytes {
+                            self.hold_done = true;
+                            self.holds += 1;
+                            self.hold_until = Some(Instant::now() + Duration::from_millis(h.ms));
+                        }
+                    }
+                }
                 let Some(&i) = self.by_sid.get(&f.sid) else {
                     return;
                 };
@@ -477,7 +507,15 @@ impl H2Peer {
                     return Some(Seg::meta(Frame::rst(sid, 8).encode()));
                 }
             }
-            let remaining = s.plan.size - s.off;
+            let mut remaining = s.plan.size - s.off;
+            // an early response never ends before the request did (sozu would rightly abandon the upload)
+            let req_open = st.early && st.recv.as_ref().map(|r| !r.ended).unwrap_or(false);
+            if req_open {
+                if remaining <= 1 {
+                    continue;
+                }
+                remaining -= 1;
+            }
             if remaining == 0 {
                 // only the separate END_STREAM frame is left
                 s.done = true; // EndSent is logged once the frame is written (see wrote)
@@ -494,7 +532,7 @@ impl H2Peer {
             if let Some(a) = s.plan.abort_at {
                 want = want.min(a - s.off).max(1);
             }
-            let last = want == remaining;
+            let last = want == remaining && !req_open;
             let end_here = last && !s.plan.h2_sep_end;
             let mut payload = vec![0u8; want as usize];
             s.code.fill(s.off, &mut payload);
@@ -621,7 +659,10 @@ impl Machine for H2Peer {
         }
     }
     fn read_plan(&self) -> (usize, u64) {
-        // the socket itself is always drained: HTTP/2 receivers pace with their windows
+        // the socket itself is drained (HTTP/2 receivers pace with their windows) - except during a full-duplex hold
+        if self.hold_until.map(|t| Instant::now() < t).unwrap_or(false) {
+            return (0, 0);
+        }
         (65536, 0)
     }
     fn wchunk(&self) -> usize {
@@ -686,7 +727,7 @@ impl Machine for H2Peer {
         std::mem::replace(&mut self.closing, CloseAction::None)
     }
     fn next_timer(&self) -> Option<Instant> {
-        let mut t: Option<Instant> = None;
+        let mut t: Option<Instant> = self.hold_until.filter(|t| Instant::now() < *t);
         for s in &self.streams {
             for c in [s.grant_at, s.send.as_ref().and_then(|x| if x.done || x.aborted { None } else { x.pace.until })] {
                 if let Some(c) = c {
